@@ -518,7 +518,7 @@ type ContractFile struct {
 	Guards  []*GuardDecl
 	Axioms  []*Clause
 	Ifaces  map[string]*FuncContract // "queueLimitTracker.add"
-	LockInv map[string]*Clause       // "Queue.mu" -> invariant over receiver named in clause
+	LockInv map[string][]*Clause     // "Queue.mu(q)" -> invariants over the named receiver
 	Raw     map[string][]string
 }
 
@@ -594,7 +594,7 @@ func ParseContractFile(path string, pkg string) (*ContractFile, error) {
 	if err != nil {
 		return nil, err
 	}
-	cf := &ContractFile{Pkg: pkg, Funcs: map[string]*FuncContract{}, Preds: map[string]*PredDef{}, Ifaces: map[string]*FuncContract{}, LockInv: map[string]*Clause{}, Raw: map[string][]string{}}
+	cf := &ContractFile{Pkg: pkg, Funcs: map[string]*FuncContract{}, Preds: map[string]*PredDef{}, Ifaces: map[string]*FuncContract{}, LockInv: map[string][]*Clause{}, Raw: map[string][]string{}}
 	var cur *FuncContract
 	var lastClause *Clause
 	var lastPred *PredDef
@@ -715,7 +715,7 @@ func ParseContractFile(path string, pkg string) (*ContractFile, error) {
 				return nil, fail(err)
 			}
 			c.Name = head
-			cf.LockInv[head] = c
+			cf.LockInv[head] = append(cf.LockInv[head], c)
 			cur = nil
 		case "props":
 			if cur == nil {
